@@ -133,6 +133,8 @@ structure Coding (α : Type) where
   ofInt : Int → α
   /-- `v / 255.` -/
   div255 : α → α
+  /-- `v * (1.0 / 255.)` — `vector2.DivByConstant` scales by the reciprocal (vector3 / vector4 divide) -/
+  mulInv255 : α → α
   /-- `strconv.AppendFloat(v, 'f', -1, 64)` -/
   showF : α → Bytes
   /-- `strconv.AppendInt(int64(v), 10)` -/
@@ -727,11 +729,13 @@ def buildAll (binary : Bool) (props : List (Bytes × SType)) (readers : List RPr
   if loadUnspecified then addUnclaimed binary props built else built
 
 /-- decode one binary scalar at byte offset `off` of a vertex record (builtVectorNPropertyReader.Read) -/
-def decScalarBin (c : Coding α) (e : Endian) (t : SType) (buf : Bytes) (off : Nat) : R α :=
+def Coding.norm8 (c : Coding α) (dim : Nat) (v : α) : α := if dim = 2 then c.mulInv255 v else c.div255 v
+
+def decScalarBin (c : Coding α) (e : Endian) (dim : Nat) (t : SType) (buf : Bytes) (off : Nat) : R α :=
   match t with
   | .uchar =>
     match buf[off]? with
-    | some b => .ok (c.div255 (c.ofInt b.toNat))
+    | some b => .ok (c.norm8 dim (c.ofInt b.toNat))
     | none => .error .panic
   | .int =>
     match get32 e (buf.drop off) with
@@ -750,7 +754,7 @@ def decScalarBin (c : Coding α) (e : Endian) (t : SType) (buf : Bytes) (off : N
 def Built.readBin (c : Coding α) (e : Endian) (b : Built) (buf : Bytes) : R (List α) :=
   match b.ty with
   | none => .error .panic
-  | some t => b.offs.mapM (decScalarBin c e t buf)
+  | some t => b.offs.mapM (decScalarBin c e b.names.length t buf)
 
 /-- decode the tokens of one ASCII line (builtAsciiVectorNPropertyReader.Read) -/
 def Built.readAscii (c : Coding α) (b : Built) (toks : List Bytes) : R (List α) := do
@@ -761,7 +765,7 @@ def Built.readAscii (c : Coding α) (b : Built) (toks : List Bytes) : R (List α
       match c.parseF t with
       | none => .error .err
       | some v => .ok v)
-  pure (if b.ty = some .uchar then vals.map c.div255 else vals)
+  pure (if b.ty = some .uchar then vals.map (c.norm8 b.names.length) else vals)
 
 /-- scalar properties of the vertex element; `none` if it contains a list property -/
 def scalarProps : List PProp → Option (List (Bytes × SType))
@@ -1031,15 +1035,15 @@ implementation's own output: oracle lines) -/
 
 /-- what a scalar written with type `t` in format `f` reads back as: decode ∘ encode of the stored field.
 `none` = the type is not implemented by the writer or the reader. -/
-def quant (c : Coding α) (f : Format) (t : SType) (v : α) : Option α :=
+def quant (c : Coding α) (f : Format) (dim : Nat) (t : SType) (v : α) : Option α :=
   match f with
   | .ascii =>
     match encScalarAscii c t v with
-    | .ok tok => (c.parseF tok).map (fun x => if t = .uchar then c.div255 x else x)
+    | .ok tok => (c.parseF tok).map (fun x => if t = .uchar then c.norm8 dim x else x)
     | .error _ => none
   | f =>
     match encScalarBin c f.endian t v with
-    | .ok bs => (decScalarBin c f.endian t bs 0).toOption
+    | .ok bs => (decScalarBin c f.endian dim t bs 0).toOption
     | .error _ => none
 
 /-- a per-corner texture coordinate (face element, `float` list) read back -/
@@ -1086,7 +1090,7 @@ def RoundTrips [BEq α] (c : Coding α) (cfg : WriterCfg) (m back : MeshVal α) 
   decide (back.topo = m.topo) && decide (primCount back = primCount m) &&
   ((selectWriters cfg m).filter (fun w => comesBack w && !(m.topo = .triangle && w.dim = 2 && w.attr = texCoordAttr))).all (fun w =>
     match cornerVals m w.dim w.attr, cornerVals back w.dim w.attr with
-    | some orig, some got => (orig.mapM (fun comps => comps.mapM (quant c cfg.format w.ty))) == some got
+    | some orig, some got => (orig.mapM (fun comps => comps.mapM (quant c cfg.format w.dim w.ty))) == some got
     | _, _ => false) &&
   (if m.topo = .triangle && hasTexCoord m then
     match cornerVals m 2 texCoordAttr, cornerVals back 2 texCoordAttr with
